@@ -7,6 +7,23 @@ HERE = os.path.dirname(os.path.dirname(os.path.abspath(__file__)))
 
 # id -> (technique, level text, level note, design ref)
 CHECKS = {
+    'C01': ('Hypothesis-generated layer DAGs/faults/options run through the real Runner (children are real '
+            'runner processes); stack invariant over the pid-tagged hook trace and over the printed lines',
+            'Generated layer graphs (single/multiple inheritance, class/instance, any hook subset), fault placements '
+            '(setUp/tearDown exception, NotImplementedError) and option sets (--layer,-x,--repeat,--shuffle,-j) are '
+            'run; a state invariant (set-up set == test closure, bases before, derived torn down first, exactly one '
+            'tear-down attempt, nothing after NotImplementedError, remaining layers in fresh processes) is checked at '
+            'every event of every process.',
+            'Trusts the world runtime to log hooks faithfully; hook-less layers are only observed through the '
+            'runner\'s own Set up/Tear down lines; MemoryError/EndRun paths are not driven.',
+            'DESIGN.md 3 (C01)'),
+    'C08': ('exhaustive small pattern pool + Hypothesis pattern lists vs. algebraic spec; metamorphic laws; '
+            'end-to-end generated worlds with -t/-m/--layer/legacy filters',
+            'build_filtering_func is compared pointwise with the three-line spec over generated pattern lists and '
+            'names, with permutation/duplication invariance and the two monotonicity laws; end to end the executed '
+            'tests, imported modules and layers run of generated worlds must equal what the spec selects.',
+            'Trusts re.search as matcher; empty pattern lists (never fed by the runner) are not asserted.',
+            'DESIGN.md 3 (C08)'),
     'C20': ('exhaustive small-scope enumeration + Hypothesis random graphs vs. reachability-closure oracle',
             'Every digraph on <=4 nodes (with self-loops) is enumerated in several insertion orders / node kinds / '
             'call patterns and compared with an independent reference partition; Hypothesis graphs of 5..14 nodes '
